@@ -55,6 +55,11 @@ func WithGlobalTx(ctx context.Context, gc *GtxConfig, business CallbackWithCtx) 
 	}
 
 	if IsGlobalTx(ctx) {
+		// the enclosing transaction shares this context: put its xid, role and
+		// name back when this scope has ended, whatever this scope does with them,
+		// so that the enclosing scope still completes its own second phase.
+		enclosing := *GetTx(ctx)
+		defer SetTx(ctx, &enclosing)
 		clearTxConf(ctx)
 	}
 
